@@ -529,8 +529,21 @@ impl<'a> Sim<'a> {
 
         // Tick the nodes that are not actively running (i.e., crashed) to ensure their clock keeps up
         // with the rest of the simulation when they are restarted (bounced).
-        for (&addr, _rt) in stopped {
+        for (&addr, rt) in stopped {
             let mut world = self.world.borrow_mut();
+            if rt.is_crashed() {
+                // A crashed host has released all of its sockets. Its network
+                // stack still answers what arrives for it: TCP segments are
+                // reset, connection attempts refused and datagrams dropped,
+                // so peers do not wait on a host that is gone.
+                let World {
+                    rng,
+                    topology,
+                    hosts,
+                    ..
+                } = world.deref_mut();
+                topology.deliver_messages(rng, hosts.get_mut(&addr).expect("missing host"));
+            }
             world.tick(addr, tick);
         }
 
